@@ -279,13 +279,13 @@ def tri_mesh(rng, n=None, style=None, renum=True, holes=None, floor=2.0 ** -10, 
 
 # ---------------------------------------------------------- quadrilaterals
 def _quad_convex(p, t):
-    ok = np.ones(t.shape[1], dtype=bool)
-    sgn = None
+    """All four corner cross products have one sign (either orientation) and are not tiny."""
+    crs = []
     for i in range(4):
         a, b, c = p[:, t[i]], p[:, t[(i + 1) % 4]], p[:, t[(i + 2) % 4]]
-        cr = (b[0] - a[0]) * (c[1] - b[1]) - (b[1] - a[1]) * (c[0] - b[0])
-        ok &= cr > 1e-6
-    return ok
+        crs.append((b[0] - a[0]) * (c[1] - b[1]) - (b[1] - a[1]) * (c[0] - b[0]))
+    crs = np.array(crs)
+    return ((crs > 1e-6).all(axis=0)) | ((crs < -1e-6).all(axis=0))
 
 
 def quad_mesh(rng, style=None, renum=True, n=None, build=True):
